@@ -524,6 +524,51 @@ func TestC14(t *testing.T) {
 			seen[k] = true
 			doPath(p, mp, tr, keyPool, 0)
 			doPath(p, mpOv, trOv, keyPoolOv, 0)
+			// the batch ALSO needs the UTF-8 repair (invalid bytes in a failure message of another event), and the
+			// search-attribute translator is the first to meet it: what leaves it must be repaired AND renamed
+			if hasBlobStep(p) && (e.Thorough() || rng.IntN(2) == 0) {
+				keys := map[string]*commonpb.Payload{"CustomKeywordField": {Data: []byte("v-CustomKeywordField")}, "Other": {Data: []byte("v-Other")}}
+				m, err := buildAlong(g, p, func(f reflect.Value) {
+					if f.Type() == payloadMapType {
+						f.Set(reflect.ValueOf(keys))
+					} else {
+						f.Set(reflect.ValueOf(&commonpb.SearchAttributes{IndexedFields: keys}))
+					}
+				})
+				if err == nil {
+					mapEventBlobs(m.ProtoReflect(), func(evs []*historypb.HistoryEvent) []*historypb.HistoryEvent {
+						return append(append([]*historypb.HistoryEvent{}, evs...), failurePadEvent(91))
+					})
+					ref := proto.Clone(m)
+					legacyRoundTripBlobs(ref.ProtoReflect())
+					mapEventBlobs(ref.ProtoReflect(), func(evs []*historypb.HistoryEvent) []*historypb.HistoryEvent {
+						for _, ev := range evs {
+							if f := ev.GetActivityTaskFailedEventAttributes().GetFailure(); f != nil && f.Message == badUTF8Marker {
+								f.Message = strings.Replace(badUTF8Marker, "~^~^", "\uFFFD", 1)
+							}
+						}
+						return evs
+					})
+					refTranslate(ref.ProtoReflect(), refOpts{sa: toGoMap(mp)})
+					_, rerr := readLeaf(g, p, ref)
+					if corruptBlobs(m.ProtoReflect()) > 0 {
+						_, terr := tr.TranslateRequest(m)
+						a, b := proto.Clone(m), proto.Clone(ref)
+						okA, okB := canonBlobs(a.ProtoReflect()), canonBlobs(b.ProtoReflect())
+						e.Emit("# sa-repaired-context "+p.opString(), "#")
+						e.Evals++
+						switch {
+						case rerr != nil:
+							e.Count("sa_repair_context_container_not_in_v1_22_schema")
+						case terr != nil || !okA || !okB || !proto.Equal(a, b):
+							e.Violation(map[string]any{"what": fmt.Sprintf("search attributes at %s (root %s) in a history batch that also needed the UTF-8 repair: the blob leaving the translator decodes=%v, equals the repaired+renamed reference=%v, err=%v",
+								describePath(g, p), g.Types[p.Root].Go, okA, okA && okB && proto.Equal(a, b), terr), "ops": []string{"sapath " + p.opString(), "# sa-repaired-context"}})
+						default:
+							e.Count("sa_repair_context_ok")
+						}
+					}
+				}
+			}
 			if hasBlobStep(p) {
 				for pm := 1; pm <= 4; pm++ {
 					if pm == 1 || e.Thorough() || rng.IntN(2) == 0 {
